@@ -3,7 +3,7 @@ PROPERTY = 'C11'
 
 
 def plan(tier, seed):
-    nctx, nfrag = 6, 19
+    nctx, nfrag = 6, 24
     nmax = 3 if tier == 'quick' else 4
     units = []
     for ci in range(nctx):
@@ -15,7 +15,7 @@ def plan(tier, seed):
                                   split=(48 if n >= 4 else 12 if n == 3 else 0)))
             for fi in range(1, nfrag):
                 for n in ((0, 1) if tier == 'quick' else (0, 1, 2)):
-                    if (ci + fi + user) % 2 and tier == 'quick':
+                    if (ci + fi + user) % 2 and tier == 'quick' and fi < 19:
                         continue
                     units.append(dict(hfile='verbatim.py', fname='c11', args=(ci, fi, n, user)))
         units.append(dict(hfile='verbatim.py', fname='c11_without_option', args=(ci,)))
